@@ -115,6 +115,13 @@ def _check_case(root, spec, pps, absolute, cfg, out, armed, alias):
             pres = G.glob(pats, flags=fl, root_dir=pathlib.Path(root), **xk)
             fd = os.open(root, os.O_RDONLY)
             fres = G.glob(pats, flags=fl, dir_fd=fd, **xk)
+            try:
+                bfres = [os.fsdecode(x) for x in G.glob(os.fsencode(pats) if isinstance(pats, str) else [os.fsencode(p) for p in pats], flags=fl,
+                                                       dir_fd=fd, **bxk)]
+            except util.HarnessBudget:
+                raise
+            except Exception as e:
+                bfres = ['<%s>' % type(e).__name__]
             with util.chdir(root):
                 cres = G.glob(pats, flags=fl, **xk)
     except util.HarnessBudget:
@@ -127,7 +134,7 @@ def _check_case(root, spec, pps, absolute, cfg, out, armed, alias):
         out.violation(dict(case, problem='iglob differs from glob', glob=res[:8], iglob=ires[:8]), bucket=('iglob',))
         return res
     base = set(res)
-    for label, other in [('bytes root', bres), ('PathLike root', pres), ('dir_fd', fres), ('cwd', cres)] + sres:
+    for label, other in [('bytes root', bres), ('PathLike root', pres), ('dir_fd', fres), ('bytes patterns with dir_fd', bfres), ('cwd', cres)] + sres:
         out.evaluations += 1
         if set(other) != base:
             out.violation(dict(case, problem='result set depends on how the root is given: ' + label, root_dir=sorted(base)[:8],
